@@ -1,4 +1,5 @@
 import ChipFiring.Theory.RankTheory
+import ChipFiring.Theory.GoodOf
 /-
   C04 — Gonality is the least degree of a rank ≥ 1 divisor; strategies are genuine.
 -/
@@ -247,5 +248,13 @@ example : ∃ G : Graph 4, Graph.new 4 false [(0, 1, 1), (1, 2, 1), (2, 3, 1), (
     gonVal (computeGonality G 1000 4 false) = some (2, 1) ∧
     (gonVal (computeGonality G 1000 1 true)) = some (-1, 0) := by
   refine ⟨_, rfl, by decide +kernel, by decide +kernel⟩
+
+/-- Headline form on connected graphs -/
+theorem computeGonality_exact_connected (G : Graph n) (hG : G.WF) (hc : G.Connected) (hn : 0 < n) (fuel : Nat)
+    (maxGon : Int) (fs : Bool) (g : Int) (l : List (Fin n → Int)) (h : computeGonality G fuel maxGon fs = some (g, l)) :
+    (g = -1 ∧ l = [] ∧ ∀ D, Eff D → deg D ≤ maxGon → ¬ RankGeOne G D) ∨
+    (∃ k : Nat, g = k ∧ 1 ≤ k ∧ (k : Int) ≤ maxGon ∧ IsGonality G k ∧ l ≠ [] ∧
+      ∀ P ∈ l, Eff P ∧ deg P = k ∧ RankGeOne G P) :=
+  computeGonality_exact G (good_of_connected G hG hc hn) fuel maxGon fs g l h
 
 end CF.C04
